@@ -123,7 +123,7 @@ def NLL(nn_state, samples, space=None, sample_bases=None, **kwargs):
             else:
                 nn_probs = nn_state.probability(samples[indices == i, :], Z)
 
-            NLL_ -= torch.sum(probs_to_logits(nn_probs))
+            NLL_ -= torch.sum(probs_to_logits(nn_probs)).item()
 
         return NLL_ / float(len(samples))
 
